@@ -58,6 +58,8 @@ type Frame struct {
 	retCount     int
 	rangeMaps    map[ssa.Value]ssa.Value
 	lastCallee   string
+	lastArgs     []Term       // arguments of the most recent call (for "at call ... assume" clauses)
+	lastArgTypes []types.Type
 	lastOrd      int
 }
 
